@@ -2,6 +2,7 @@ import Liquid.Call
 import Liquid.Compare
 import Liquid.Lookup
 import Liquid.Filters.Str
+import Liquid.InsertionSort
 /-!
 # Array filters (DESIGN §6 C15): compact concat join map reverse sort sort_natural first last uniq
 
@@ -16,29 +17,35 @@ the empty `[]any`.
 
 ## Sorting
 
-Go sorts with `sort.Sort` (pdqsort; insertion sort up to 12 elements), which is *not stable*, over
-`values.Less` (`Cmp.less`). The model sorts with `List.mergeSort` over the same `Less`
-(`sortLe a b = ¬ Less b a`). What Go guarantees — and what C15 claims — is that the result is a
-permutation of the input that is sorted with respect to `Less`; the order of elements that `Less`
-does not separate is unspecified. Hence:
+Go sorts with `sort.Sort` over `values.Less` (`Cmp.less`). `sort.Sort` is pdqsort, which is *not
+stable* — but `pdqsort` begins with `if length <= 12 { insertionSort(data, a, b); return }`, so:
 
-* `Less` is a strict weak order only on *homogeneous* arrays (`homog`): all integers (compared
-  exactly), all numbers with every integer inside ±2⁵³ (integers and floats meet as `float64`,
-  which is exact there), all strings, all booleans, all nil, or all values `Less` never orders
-  (arrays, maps, …). On any other array (numbers mixed with strings or nil, integers beyond 2⁵³
-  mixed with floats) sortedness is not even well defined and Go's result depends on pdqsort's
-  comparison sequence: the model answers `unmodelled` (the harness oracle still checks that the
-  real result is a permutation).
-* `sort` by a key orders by `index(i)` (the entry of a string-keyed map, else nil) with nil first;
-  the non-nil keys must be homogeneous.
-* the `filter`/`render`/`numf` protocol lines compare the result list verbatim, which is
-  meaningful when ties cannot be permuted: up to 12 elements Go's insertion sort is stable and
-  agrees with `mergeSort`; above that the impl answers `unmodelled` when two tied elements are
-  distinguishable (`tiesVisible`). The `sortc` line (stream `arrf`) compares the *canonical form*
-  instead, for every length: the sequence of sort keys of the result (`canonKey`: the exact
-  number, the string, `n` for nil, `?` for unordered values) and the multiset of the elements
-  (their encodings, sorted). Two sorted permutations of the same homogeneous array have the same
-  canonical form, so this compares exactly what the property claims.
+* **up to 12 elements** (`maxInsertion`) the result is the one of `insertionSort`
+  (`sort/zsortinterface.go`, modelled in `Liquid/InsertionSort.lean`), whatever the comparator — a strict weak order or not. The model runs
+  the same two loops (`insertionSortM`: element `i` travels left while `Less(data[j], data[j-1])`)
+  over the same comparators (`Cmp.less`; `lessByKeyM` for `sort: key`; `natLessM` for
+  `sort_natural`, which computes both sort texts at every comparison as `keySortable.Less` does), so
+  the exact list is determined: mixed arrays (numbers next to strings or nil, integers beyond 2⁵³
+  next to floats) are answered like any other, and a comparison that is outside the model (or
+  panics) matters exactly when the real algorithm performs it.
+* **beyond 12 elements** the model sorts with `List.mergeSort` over the same `Less`
+  (`sortLe a b = ¬ Less b a`). What Go guarantees there — and what C15 claims — is that the result
+  is a permutation of the input that is sorted with respect to `Less`; the order of elements that
+  `Less` does not separate is unspecified. `Less` is a strict weak order only on *homogeneous*
+  arrays (`homog`): all integers (compared exactly), all numbers with every integer inside ±2⁵³
+  (integers and floats meet as `float64`, which is exact there), all strings, all booleans, all
+  nil, or all values `Less` never orders (arrays, maps, …). On any other array of more than 12
+  elements sortedness is not even well defined and Go's result depends on pdqsort's comparison
+  sequence: the model answers `unmodelled` (the harness oracle still checks that the real result
+  is a permutation). `sort` by a key orders by `index(i)` (the entry of a string-keyed map, else
+  nil) with nil first; beyond 12 elements the non-nil keys must be homogeneous.
+* the `filter`/`render`/`numf` protocol lines compare the result list verbatim. Beyond 12 elements
+  that is meaningful when ties cannot be permuted: the impl answers `unmodelled` when two tied
+  elements are distinguishable (`tiesVisible`). The `sortc` line (stream `arrf`) compares the
+  verbatim list up to 12 elements and the *canonical form* beyond: the sequence of sort keys of
+  the result (`canonKey`: the exact number, the string, `n` for nil, `?` for unordered values) and
+  the multiset of the elements (their encodings, sorted). Two sorted permutations of the same
+  homogeneous array have the same canonical form, so this compares exactly what the property claims.
 * `sort_natural` (repaired) orders by a text key — `""` for nil, else `strings.ToUpper` of the
   printed form; with a key argument `strings.ToLower` of the string entry of a string-keyed map,
   else `""` — a total preorder on every array, so it is never `unmodelled` for its order.
@@ -187,7 +194,7 @@ def uniq : List GoVal → R GoVal
 
 /-! ## sort -/
 
-/-- `values.Less(a, b)` as a Boolean (it never fails: `Proofs/CompareLemmas.less_noPanic`) -/
+/-- `values.Less(a, b)` as a Boolean (it always answers: `Proofs/ArrLemmas.less_eq_lessB`) -/
 def lessB (a b : GoVal) : Bool :=
   match Cmp.less a b with
   | .ok r => r
@@ -196,8 +203,10 @@ def lessB (a b : GoVal) : Bool :=
 /-- "`a` may stay before `b`": `¬ Less(b, a)` -/
 def sortLe (a b : GoVal) : Bool := !lessB b a
 
-/-- `values.Sort` up to the order of ties -/
-def sortF (xs : List GoVal) : List GoVal := xs.mergeSort sortLe
+/-- What `values.Sort` computes: the insertion sort up to 12 elements; beyond, a sorted permutation
+(Go's up to the order of ties when `Less` is a strict weak order on the array). -/
+def sortF (xs : List GoVal) : List GoVal :=
+  if xs.length ≤ maxInsertion then insertionSort lessB xs else xs.mergeSort sortLe
 
 /-- `index(i)` of `sortableByProperty.Less`: the entry of a map with string keys, else nil -/
 def keyIndex (key : Bytes) (x : GoVal) : GoVal :=
@@ -214,10 +223,19 @@ def lessByKey (key : Bytes) (a b : GoVal) : Bool :=
   | false, true => false
   | false, false => lessB (keyIndex key a) (keyIndex key b)
 
+/-- the same with `values.Less` as the partial function it is in the model -/
+def lessByKeyM (key : Bytes) (a b : GoVal) : R Bool :=
+  match (keyIndex key a).isNil, (keyIndex key b).isNil with
+  | true, true => .ok false
+  | true, false => .ok true
+  | false, true => .ok false
+  | false, false => Cmp.less (keyIndex key a) (keyIndex key b)
+
 def sortByLe (key : Bytes) (a b : GoVal) : Bool := !lessByKey key b a
 
-/-- `values.SortByProperty(·, key, true)` up to the order of ties -/
-def sortByF (key : Bytes) (xs : List GoVal) : List GoVal := xs.mergeSort (sortByLe key)
+/-- What `values.SortByProperty(·, key, true)` computes (as `sortF`) -/
+def sortByF (key : Bytes) (xs : List GoVal) : List GoVal :=
+  if xs.length ≤ maxInsertion then insertionSort (lessByKey key) xs else xs.mergeSort (sortByLe key)
 
 /-- the classes of values `Less` orders among themselves -/
 inductive KClass where
@@ -258,24 +276,34 @@ def tiesVisible (le : GoVal → GoVal → Bool) : List GoVal → Bool
   | a :: b :: rest => (le b a && a.enc != b.enc) || tiesVisible le (b :: rest)
   | _ => false
 
-/-- the verbatim result is comparable with Go's: at most 12 elements (insertion sort, stable) or
-no visible ties -/
+/-- the verbatim result is comparable with Go's: at most 12 elements (insertion sort, modelled
+exactly) or no visible ties -/
 def stableEnough (le : GoVal → GoVal → Bool) (ys : List GoVal) : Bool :=
-  ys.length ≤ 12 || !tiesVisible le ys
+  ys.length ≤ maxInsertion || !tiesVisible le ys
 
-def notSWO : R GoVal := .unmodelled "sort: Less is not a strict weak order on this array (mixed kinds)"
-def tieOrder : R GoVal := .unmodelled "sort: more than 12 elements with distinguishable ties (unstable sort)"
+def notSWO {α : Type} : R α :=
+  .unmodelled "sort: Less is not a strict weak order on this array of more than 12 elements (mixed kinds)"
+def tieOrder {α : Type} : R α := .unmodelled "sort: more than 12 elements with distinguishable ties (unstable sort)"
+
+/-- `values.Sort(result)` on the copy `result` of the array: exactly Go's list up to 12 elements;
+beyond, a sorted permutation when `Less` is a strict weak order on the array -/
+def sortM (xs : List GoVal) : R (List GoVal) :=
+  if xs.length ≤ maxInsertion then insertionSortM Cmp.less xs
+  else if !homog xs then notSWO else .ok (xs.mergeSort sortLe)
+
+/-- `values.SortByProperty(result, key, true)` likewise -/
+def sortByM (key : Bytes) (xs : List GoVal) : R (List GoVal) :=
+  if xs.length ≤ maxInsertion then insertionSortM (lessByKeyM key) xs
+  else if !homogBy key xs then notSWO else .ok (xs.mergeSort (sortByLe key))
 
 /-- `sortFilter`; `strict`: answer only when the verbatim list is determined -/
 def sortWith (strict : Bool) : List GoVal → R GoVal
   | [.slice .any xs, .nil] =>
-    if !homog xs then notSWO else
-    let ys := sortF xs
+    (sortM xs).bind fun ys =>
     if strict && !stableEnough sortLe ys then tieOrder else .ok (.slice .any ys)
   | [.slice .any xs, key] =>
     (sprint key).bind fun k =>
-    if !homogBy k xs then notSWO else
-    let ys := sortByF k xs
+    (sortByM k xs).bind fun ys =>
     if strict && !stableEnough (sortByLe k) ys then tieOrder else .ok (.slice .any ys)
   | _ => badArgs
 
@@ -301,32 +329,51 @@ def natKeyBy (key : Bytes) (m : GoVal) : R Bytes :=
     | .map .str _ kvs => GoVal.mapFind kvs (.str key)
     | .keyedMap fs => GoVal.lookupFields fs key
     | _ => none
-  match entry with
+  match entry.map GoVal.toLiquid with          -- the entry is resolved by `values.ToLiquid` (one level) before the string test
   | some (.str s) => caseRes (StrF.downcase s)
   | _ => .ok []
+
+/-- `keySortable.Less`: `a, b := k(sl[i]), k(sl[j]); return a < b` — both sort texts are computed at
+every comparison -/
+def natLessM (f : GoVal → R Bytes) (a b : GoVal) : R Bool :=
+  (f a).bind fun ka => (f b).bind fun kb => .ok (Cmp.bytesLt ka kb)
 
 def decorate (f : GoVal → R Bytes) : List GoVal → R (List (Bytes × GoVal))
   | [] => .ok []
   | x :: xs => (f x).bind fun k => (decorate f xs).bind fun r => .ok ((k, x) :: r)
 
-/-- `keySortable.Less`: `a < b` on the sort texts -/
-def textLe (p q : Bytes × GoVal) : Bool := !Cmp.bytesLt q.1 p.1
+/-- `keySortable.Less` on elements that carry their sort text -/
+def textLt (p q : Bytes × GoVal) : Bool := Cmp.bytesLt p.1 q.1
 
-def sortTexts (ds : List (Bytes × GoVal)) : List (Bytes × GoVal) := ds.mergeSort textLe
+/-- "`p` may stay before `q`": `¬ (q.text < p.text)` -/
+def textLe (p q : Bytes × GoVal) : Bool := !textLt q p
 
 def tiesVisibleT : List (Bytes × GoVal) → Bool
   | a :: b :: rest => (textLe b a && a.2.enc != b.2.enc) || tiesVisibleT (b :: rest)
   | _ => false
+
+/-- `sort.Sort(keySortable{result, f})`: exactly Go's list up to 12 elements (the sort texts are
+computed when Go computes them: an array of one element is returned as it is); beyond, every
+element takes part in a comparison, so every sort text is computed, and the order is a total
+preorder: a sorted permutation, Go's up to the order of ties -/
+def sortNatM (strict : Bool) (f : GoVal → R Bytes) (xs : List GoVal) : R (List GoVal) :=
+  if xs.length ≤ maxInsertion then insertionSortM (natLessM f) xs
+  else (decorate f xs).bind fun ds =>
+    let ys := ds.mergeSort textLe
+    if strict && tiesVisibleT ys then tieOrder else .ok (ys.map (·.2))
+
+/-- What `sort.Sort(keySortable{…})` computes when the sort text of every element is `k` of it
+(as `sortF`; `Proofs/C15.sort_natural_model`) -/
+def sortNatF (k : GoVal → Bytes) (xs : List GoVal) : List GoVal :=
+  if xs.length ≤ maxInsertion then insertionSort (fun a b => Cmp.bytesLt (k a) (k b)) xs
+  else ((xs.map fun x => (k x, x)).mergeSort textLe).map (·.2)
 
 def sortNaturalWith (strict : Bool) : List GoVal → R GoVal
   | [.slice .any xs, key] =>
     let keyFn : R (GoVal → R Bytes) := match key with
       | .nil => .ok natKey
       | k => (sprint k).bind fun name => .ok (natKeyBy name)
-    keyFn.bind fun f => (decorate f xs).bind fun ds =>
-    let ys := sortTexts ds
-    if strict && !(ys.length ≤ 12 || !tiesVisibleT ys) then tieOrder
-    else .ok (.slice .any (ys.map (·.2)))
+    keyFn.bind fun f => (sortNatM strict f xs).bind fun ys => .ok (.slice .any ys)
   | _ => badArgs
 
 def sortNatural : List GoVal → R GoVal := sortNaturalWith true
@@ -341,11 +388,13 @@ def impls : List (Bytes × FilterImpl) := [
   (bn "reverse", eager reverse), (bn "sort", eager sort), (bn "first", eager first), (bn "last", eager last),
   (bn "uniq", eager uniq), (bn "sort_natural", eager sortNatural)]
 
-/-- the same table with the sorts answering whenever the *canonical form* is determined -/
+/-- the same table with the sorts answering whenever the *canonical form* is determined (beyond 12
+elements; up to 12 both tables give Go's exact list) -/
 def implsCanon : List (Bytes × FilterImpl) :=
   [(bn "sort", eager (sortWith false)), (bn "sort_natural", eager (sortNaturalWith false))] ++ impls
 
-/-! ## Canonical form of a sort result (`sortc` line of the `arrf` stream) -/
+/-! ## Result of a sort case (`sortc` line of the `arrf` stream): the exact list up to 12 elements,
+the canonical form beyond -/
 
 /-- an exact number as text -/
 def ratText (num : Int) (den : Nat) : String := s!"#{num}/{den}"
@@ -368,13 +417,16 @@ def canonForm (keys : List String) (ys : List GoVal) : String :=
 def textKeys (f : GoVal → R Bytes) (ys : List GoVal) : R (List String) :=
   (decorate f ys).bind fun ds => .ok (ds.map fun d => "s" ++ hexEncode d.1)
 
-/-- `sortc <namehex> <recv> <key>?`: `x | sort[: key]` or `x | sort_natural[: key]` in canonical form -/
+/-- `sortc <namehex> <recv> <key>?`: `x | sort[: key]` or `x | sort_natural[: key]`. A result of at most
+12 elements is Go's insertion sort, determined element by element: `ok <enc>`. A longer one is
+compared in canonical form: `ok K:<keys> M:<multiset>`. -/
 def runSortc (table : List (Bytes × FilterImpl)) (name : Bytes) (recv : GoVal) (args : List GoVal) : String :=
   match evalFilter (lookupImpl (implsCanon ++ table)) name recv args with
   | .err c => "err " ++ c.kind
   | .panic _ => "panic"
   | .unmodelled w => "unmodelled " ++ w
   | .ok (.slice .any ys) =>
+    if ys.length ≤ maxInsertion then "ok " ++ (GoVal.slice .any ys).enc else
     let key : GoVal := (args.map viaValue).headD .nil
     let keys : R (List String) :=
       if name == bn "sort" then
